@@ -463,10 +463,12 @@ def main(argv=None):
     if a.json:
         json.dump(T.sites, sys.stdout, indent=1)
     elif a.out:
-        tmp = a.out + '.tmp'
         os.makedirs(os.path.dirname(os.path.abspath(a.out)), exist_ok=True)
-        open(tmp, 'w').write(txt)
-        os.replace(tmp, a.out)
+        old = open(a.out).read() if os.path.exists(a.out) else None
+        if old != txt:      # keep the mtime when nothing changed: make stays a no-op
+            tmp = '%s.%d.tmp' % (a.out, os.getpid())
+            open(tmp, 'w').write(txt)
+            os.replace(tmp, a.out)
         sys.stderr.write('calls2v: %d sites -> %s\n' % (len(T.sites), a.out))
     else:
         sys.stdout.write(txt)
